@@ -269,6 +269,7 @@ func c02Groups(run *vfRun) []c02Group {
 // c02Identity draws a user with content of about `bulk` incompressible characters spread over groups and extra claims.
 func c02Identity(r *rand.Rand, tag string, bulk int) vfIdentity {
 	hexs := func(n int) string { return c02RandStr(r, n, "0123456789abcdef") }
+	blob := func(n int) string { return c02RandStr(r, n, c02Alnum) } // incompressible for LZ4 (no repeats), not mistakable for hex ids
 	user := c02RandStr(r, 6+r.Intn(10), c02Alnum)
 	id := vfIdentity{
 		Sub:               "u-" + tag + "-" + hexs(10+r.Intn(12)),
@@ -285,7 +286,7 @@ func c02Identity(r *rand.Rand, tag string, bulk int) vfIdentity {
 		share := bulk * r.Intn(30) / 100
 		for share > 0 {
 			n := 20 + r.Intn(60)
-			id.Groups = append(id.Groups, "team-"+hexs(n))
+			id.Groups = append(id.Groups, "team-"+blob(n))
 			share -= n * 7 / 4
 			bulk -= n * 7 / 4
 		}
@@ -295,7 +296,7 @@ func c02Identity(r *rand.Rand, tag string, bulk int) vfIdentity {
 			if n > 900 && r.Intn(2) == 0 {
 				n = 300 + r.Intn(600)
 			}
-			id.Extra[fmt.Sprintf("claim_%d", k)] = hexs(n)
+			id.Extra[fmt.Sprintf("claim_%d", k)] = blob(n)
 			bulk -= n
 			k++
 		}
